@@ -9,14 +9,16 @@ from scenario import bam as BAM, phasing as PH
 
 LEVEL = "exploration"
 LEVEL_TEXT = ("Pipeline property (BAM -> allele detection -> read selection -> PedMEC -> components -> VCF writer), no single-call contract can state it: "
-              "decided by a bounded stand-in. Whole `whatshap phase` runs (default exact algorithm, with reference re-alignment, and --no-reference for SNV-only "
+              "decided by a bounded stand-in; the pieces are under deductive contract with the properties that own them (allele detection C06, read selection C07, "
+              "components C03, solver leaves C01) and the LAST stage is re-run here: the loop-body contract of PhasedVcfWriter.write's record pass (every phased sample's "
+              "call ends with the run's own phase or none at all -- a stale input phase on a record the run skips would contradict the truth) (contracts/vcfwrite_py.py). Whole `whatshap phase` runs (default exact algorithm, with reference re-alignment, and --no-reference for SNV-only "
               "inputs) on generated references/variants/true haplotypes with error-free reads (SNV, MNP, insertion, deletion; soft clips; =/X CIGARs; read lengths "
               "40-150; depth up to 30 per haplotype, i.e. above the internal cap of 15; 1-2 samples with read groups; --tag PS/HP, --only-snvs, --sample subsets); "
               "every output phase set must carry the truth up to a whole-set swap. The lemma 'zero MEC cost forces the true bipartition on every read-connected "
               "component' that links C06, C01, C03 and the writer is an assumption, not a discharged obligation.")
 LEVEL_NOTE = "Seeded sampling only. Trusted: scenario generator (truth by construction), independent VCF decoder."
-TECHNIQUE = "bounded end-to-end runtime contract on run_whatshap over generated BAM/FASTA/VCF scenarios with known true haplotypes"
-D_MODULES = []
+TECHNIQUE = "contract-based deductive verification of the VCF writer's record pass (vcgen, z3) + bounded end-to-end runtime contract on run_whatshap over generated BAM/FASTA/VCF scenarios with known true haplotypes"
+D_MODULES = ["contracts.vcfwrite_py"]
 EXPLANATION = LEVEL_TEXT
 TRUSTED_BASE = ["scenario/bam.py (reads are exact copies of one true haplotype with exact CIGARs)"]
 ASSUMPTIONS = ["composition lemma (C06 + C01 + C03 + writer => C02) is argued in DESIGN.md, not machine-checked",
